@@ -41,9 +41,64 @@ CORPUS = [
 ]
 
 
+def frame_programs():
+    """subroutines that return with abandoned FOR frames above the return address, called from every kind of context"""
+    subs = {
+        "for-return": ["FOR J=1 TO 10", "IF J=I THEN RETURN", "NEXT J", "RETURN"],
+        "for-for-return": ["FOR J=1 TO 3:FOR K=1 TO 3", "IF J*K=I+1 THEN RETURN", "NEXT K,J", "RETURN"],
+        "for-goto-return": ["FOR J=1 TO 5", "IF J=2 THEN {out}", "NEXT J", "{out} PRINT \"o\";:RETURN"],
+        "while-return": ["Q=0:WHILE Q<5:Q=Q+1", "IF Q=I+1 THEN RETURN", "WEND", "RETURN"],
+        "for-gosub-return": ["FOR J=1 TO 2:GOSUB {deep}:NEXT J:RETURN", "{deep} FOR K=1 TO 9:IF K=2 THEN RETURN", "NEXT K:RETURN"],
+        "plain": ["PRINT \"s\";:RETURN"],
+    }
+    callers = {
+        "for": (["FOR I=1 TO 3", "GOSUB {sub}", "PRINT I;J;", "NEXT I", "PRINT \"done\":END"]),
+        "for-for": (["FOR L=1 TO 2:FOR I=1 TO 2", "GOSUB {sub}", "PRINT L;I;", "NEXT I,L", "PRINT \"done\":END"]),
+        "while": (["I=0:WHILE I<3:I=I+1", "GOSUB {sub}", "PRINT I;", "WEND", "PRINT \"done\":END"]),
+        "gosub-in-for": (["FOR M=1 TO 2:GOSUB {mid}:NEXT M:PRINT \"done\":END", "{mid} I=M:GOSUB {sub}:PRINT M;:RETURN"]),
+        "expression": (["FOR I=1 TO 2", "GOSUB {sub}:X=I*10+J:PRINT X;", "NEXT", "PRINT \"done\":END"]),
+        "on-gosub": (["FOR I=1 TO 3", "ON I GOSUB {sub},{sub},{sub}", "PRINT I;", "NEXT I", "PRINT \"done\":END"]),
+    }
+    out = []
+    for cname, clines in callers.items():
+        for sname, slines in subs.items():
+            lines = []
+            labels = {}
+            num = 10
+            body = []
+            for l in clines:
+                body.append(l)
+            body2 = list(slines)
+            # lay out: caller lines, then the sub; labels {mid} {sub} {deep} {out} are the line numbers of the lines that start with them
+            all_lines = []
+            for l in body:
+                all_lines.append(l)
+            first_sub = True
+            for l in body2:
+                all_lines.append(("{sub} " + l) if first_sub else l)
+                first_sub = False
+            numbered = []
+            for l in all_lines:
+                lab = None
+                while l.startswith("{"):
+                    k = l.index("}")
+                    lab = l[1:k]
+                    labels[lab] = num
+                    l = l[k + 2:]
+                numbered.append((num, l))
+                num += 10
+            prog = []
+            for n_, l in numbered:
+                for lab, v in labels.items():
+                    l = l.replace("{%s}" % lab, str(v))
+                prog.append("%d %s" % (n_, l))
+            out.append((prog, []))
+    return out
+
+
 def gen(tier, rng):
     cases = []
-    progs = list(CORPUS)
+    progs = list(CORPUS) + frame_programs()
     n = 500 if tier == "quick" else 20000
     for _ in range(n):
         progs.append(gen_prog.generate(rng))
